@@ -39,6 +39,9 @@ type Step struct {
 	// Inject (resume, race variant): right after the server has read the stored events for this resume, the
 	// stream's handler is told to write one more message (the write overlaps replay and re-attachment).
 	Inject bool `json:"inject,omitempty"`
+	// Quiet (cut): the client is gone but the server has not noticed: its next write to the exchange fails, and
+	// only that failure ends the exchange (memhttp.CutQuietly). Until then a resume may find the stream taken.
+	Quiet bool `json:"quiet,omitempty"`
 }
 
 type Script struct {
@@ -67,6 +70,9 @@ func genScript(rt *rapid.T, race bool) Script {
 		st := Step{Kind: rapid.SampledFrom(kinds).Draw(rt, "kind"), S: rapid.IntRange(0, 2).Draw(rt, "s"), I: rapid.IntRange(0, 11).Draw(rt, "i")}
 		if st.Kind == "post" {
 			posts++
+		}
+		if st.Kind == "cut" {
+			st.Quiet = rapid.IntRange(0, 2).Draw(rt, "quiet") == 0
 		}
 		if race {
 			st.NoWait = rapid.IntRange(0, 3).Draw(rt, "nowait") == 0
@@ -186,6 +192,19 @@ type exch struct {
 	// hclosed: the handler closed this exchange itself (CloseSSEStream); like a cut, later messages are
 	// not owed to it.
 	hclosed bool
+	// quiet: cut without the server noticing (CutQuietly); while the server still runs the exchange's handler
+	// the stream counts as taken on its side
+	quiet bool
+}
+
+// halfOpen reports whether an exchange of the stream was cut quietly and is still held by the server.
+func (s *streamRec) halfOpen() bool {
+	for _, e := range s.exs {
+		if e.quiet && !e.ex.HandlerDone() {
+			return true
+		}
+	}
+	return false
 }
 
 type streamRec struct {
@@ -356,6 +375,9 @@ func runInBubble(s Script) (res vt.Result) {
 
 	var streams []*streamRec
 	standalone := &streamRec{sid: "", known: true}
+	// the stream of the initialize request is a request stream like any other (its POST carries no
+	// Mcp-Protocol-Version header: the version is in its params)
+	initStream := &streamRec{k: -1, posted: true, finished: true, exs: []*exch{{ex: ex, from: -1}}}
 	snotes := 0
 	var desc strings.Builder
 	nt := false
@@ -374,7 +396,7 @@ func runInBubble(s Script) (res vt.Result) {
 	}
 
 	check := func(step int) {
-		all := append([]*streamRec{standalone}, streams...)
+		all := append([]*streamRec{standalone, initStream}, streams...)
 		for _, st := range all {
 			for xi, e := range st.exs {
 				if e.conflict {
@@ -507,7 +529,13 @@ func runInBubble(s Script) (res vt.Result) {
 			sr := streams[st.S%len(streams)]
 			if e := sr.attached(); e != nil {
 				e.cut = true
-				e.ex.Cut(memhttp.ErrCut)
+				if st.Quiet {
+					e.quiet = true
+					e.ex.CutQuietly(memhttp.ErrCut)
+					res.Class("client_gone_unnoticed_until_a_write_fails")
+				} else {
+					e.ex.Cut(memhttp.ErrCut)
+				}
 				desc.WriteString("x")
 			}
 		case "purge":
@@ -571,6 +599,7 @@ func runInBubble(s Script) (res vt.Result) {
 			idx := sr.seenIdx[st.I%len(sr.seenIdx)]
 			owner := sr.attached()
 			wasAttached := owner != nil
+			halfOpenBefore := sr.halfOpen()
 			if detachedWrites[sr] && !wasAttached {
 				nt = true
 			}
@@ -606,7 +635,7 @@ func runInBubble(s Script) (res vt.Result) {
 				}
 			case 409:
 				e.conflict = true
-				if !wasAttached && !racing {
+				if !wasAttached && !racing && !halfOpenBefore {
 					res.Failf("step %d: resume of stream %q refused with 409 although no exchange is attached to it", i, sr.sid)
 				}
 			default:
@@ -721,6 +750,36 @@ func runInBubble(s Script) (res vt.Result) {
 	if purged {
 		// what "stays obtainable" after a purge depends on what the store evicted: not judged
 		return finish(res, s, &desc, nt)
+	}
+	// the answer to initialize, too, stays obtainable from any event id its stream has handed out
+	if len(res.Violations) == 0 && initStream.known && len(initStream.seenIdx) > 0 {
+		from := initStream.seenIdx[0]
+		ex := do("GET", "", map[string]string{"Last-Event-ID": fmt.Sprintf("%s_%d", initStream.sid, from)})
+		if ex == nil || ex.Status() != 200 {
+			st := 0
+			if ex != nil {
+				st = ex.Status()
+			}
+			res.Failf("final: resuming the stream of the initialize request (%q) after event %d answered %d", initStream.sid, from, st)
+		} else {
+			initStream.exs = append(initStream.exs, &exch{ex: ex, from: from, hasFrom: true})
+			synctest.Wait()
+			check(len(s.Steps) + 2)
+			got := false
+			for _, ev := range memhttp.ParseSSE(ex.Written()) {
+				var m struct {
+					ID     *string         `json:"id"`
+					Result json.RawMessage `json:"result"`
+				}
+				if json.Unmarshal([]byte(ev.Data), &m) == nil && m.ID != nil && *m.ID == "hs" && m.Result != nil {
+					got = true
+				}
+			}
+			if log := store.log(initStream.sid); !got && from < len(log)-1 {
+				res.Failf("final: the response to initialize is not obtainable by resuming its stream %q after event %d (%d messages were written to it)", initStream.sid, from, len(log))
+			}
+			res.Class("initialize_stream_resumed")
+		}
 	}
 	var lastKnown *streamRec
 	for _, sr := range streams {
